@@ -197,7 +197,9 @@ func runC35(c *Ctx) {
 				isStrict := func(e ast.Expr) bool {
 					return w.mentionsDeep(f, defs, e, tokenP) && w.mentionsDeep(f, defs, e, nil, "encoding/base64.Encoding.Strict")
 				}
-				isSum := func(e ast.Expr) bool { return w.mentionsDeep(f, defs, e, nil, "hash.Hash.Sum") && !w.mentionsDeep(f, defs, e, tokenP) }
+				isSum := func(e ast.Expr) bool {
+					return w.mentionsDeep(f, defs, e, nil, "hash.Hash.Sum") && !w.mentionsDeep(f, defs, e, tokenP)
+				}
 				if (isStrict(call.Args[0]) && isSum(call.Args[1])) || (isStrict(call.Args[1]) && isSum(call.Args[0])) {
 					okCmp = true
 				}
